@@ -107,6 +107,36 @@ def gen(globs):
             if re.match(r'^\s*while .* \{$', ln) and ' let ' not in ln:
                 cond = re.match(r'^(\s*while )(.*)( \{)$', ln)
                 cands.append(('while-not', cond.group(1) + '!(' + cond.group(2) + ')' + cond.group(3)))
+            # --- second generation operators
+            for k, mm in enumerate(re.finditer(r'(?<![\w)\]])!(?=[\w(])', ln)):          # `!x` -> `x`
+                if not ln[mm.end():].startswith('='):
+                    cands.append(('bang-removed#%d' % k, ln[:mm.start()] + ln[mm.end():]))
+            for k, mm in enumerate(re.finditer(r'(\w[\w.&*()]*) (&&|\|\|) (\w[\w.&*()]*)', ln)):    # `a && b` -> `a` / `b`
+                cands.append(('drop-right-operand#%d' % k, ln[:mm.start()] + mm.group(1) + ln[mm.end():]))
+                cands.append(('drop-left-operand#%d' % k, ln[:mm.start()] + mm.group(3) + ln[mm.end():]))
+            for k, mm in enumerate(re.finditer(r'\(([&*]?[\w.]+), ([&*]?[\w.]+)((?:, [&*]?[\w.]+)*)\)', ln)):   # swap the first two simple arguments
+                if mm.group(1) != mm.group(2):
+                    cands.append(('swap-args#%d' % k, ln[:mm.start()] + '(' + mm.group(2) + ', ' + mm.group(1) + mm.group(3) + ')' + ln[mm.end():]))
+            for k, mm in enumerate(re.finditer(r', ([&*]?[\w.]+), ([&*]?[\w.]+)\)', ln)):                  # swap the last two simple arguments
+                if mm.group(1) != mm.group(2):
+                    cands.append(('swap-last-args#%d' % k, ln[:mm.start()] + ', ' + mm.group(2) + ', ' + mm.group(1) + ')' + ln[mm.end():]))
+            for k, mm in enumerate(re.finditer(r'\bself\.params\b(?!\()', ln)):
+                cands.append(('params-default#%d' % k, ln[:mm.start()] + 'crate::Params::default()' + ln[mm.end():]))
+            for k, mm in enumerate(re.finditer(r'(?<=[(, ])params(?=[,)])', ln)):
+                cands.append(('params-arg-default#%d' % k, ln[:mm.start()] + 'crate::Params::default()' + ln[mm.end():]))
+            for k, mm in enumerate(re.finditer(r'\.0\b(?!\.)', ln)):
+                cands.append(('field0->1#%d' % k, ln[:mm.start()] + '.1' + ln[mm.end():]))
+            for k, mm in enumerate(re.finditer(r'\.1\b(?!\.)', ln)):
+                cands.append(('field1->0#%d' % k, ln[:mm.start()] + '.0' + ln[mm.end():]))
+            for old_, new_ in (('Some(', 'None.or(Some('), ('.clone()', ''), ('.into_seq_iter()', '.into_seq_iter().skip(1)'), ('.skip_to_end()', '.has_more()'),
+                               ('chunk_size(', 'chunk_size(1 + '), ('num_threads(', 'num_threads(1 + '), ('.unwrap_or_else(identity)', '.unwrap_or_else(|| identity())'),
+                               ('ParTask::EarlyReturn', 'ParTask::Collect'), ('ParTask::Collect', 'ParTask::EarlyReturn'), ('ParTask::Reduce', 'ParTask::Collect'),
+                               ('=> x,', '=> y,'), ('=> y,', '=> x,'), ('{ b } else { a }', '{ a } else { b }'), ('.collect_vec()', '.collect_vec().into_iter().rev().collect::<Vec<_>>()'),
+                               ('.iter_len()', '.iter_len().map(|n| n / 2)'), ('.try_get_len()', '.try_get_len().map(|n| n + 1)'), ('.reserve(', '.reserve(0 * '),
+                               ('move |x| ', 'move |x| { let _ = &x; } ; move |x| '), ('no_filter', 'no_filter_never')):
+                j = ln.find(old_)
+                if j >= 0:
+                    cands.append(('%s->%s' % (old_, new_[:18]), ln[:j] + new_ + ln[j + len(old_):]))
             seen = set()
             for op, new in cands:
                 if new == ln or new in seen:
